@@ -253,7 +253,7 @@ func tailStr(s string, n int) string {
 	if len(s) > n {
 		s = s[len(s)-n:]
 	}
-	return s
+	return strings.Join(strings.Fields(s), " ")
 }
 
 func runHalt(c *xs.Ctx, r *xs.Result, it item) {
